@@ -27,6 +27,47 @@ CHECK_DEADLOCK FALSE
 """
 
 
+ATTEST_CFG = "SPECIFICATION Spec\nINVARIANTS TypeOK NothingCreatedOnUsageError CreatedOnlyForFile ExportCase\nCHECK_DEADLOCK FALSE\n"
+
+
+def _attest_note(prop, tier):
+    """spec/AttestTool.tla: tools/attest, the command line around client.GetRawQuote / GetQuote. Not one of the listed properties: a
+    divergence is reported as a NOTE and recorded in the evidence; nothing that happens here changes the verdict or the exit status of C15."""
+    try:
+        wd = C.scratch("verif-attest-")
+        binary = C.build_harness()
+        tool = _os.path.join(C.BUILD, "attest-tool")
+        p = _sp.run(["go", "build", "-buildvcs=false", "-o", tool, "./tools/attest"], cwd=C.REPO, env=C.GOENV, capture_output=True, text=True)
+        if p.returncode != 0:
+            raise C.Infra("tools/attest does not build: " + (p.stdout + p.stderr)[-300:])
+        r = C.run_tlc("AttestTool_MC", ATTEST_CFG, workers=1, timeout=600, want_cases=True, heap="2g")
+        C.tlc_must_pass(r, "AttestTool model check")
+        cases = r.cases
+        for i, c in enumerate(cases):
+            c["id"] = i + 1
+        cp = _os.path.join(wd, "cases.jsonl")
+        with open(cp, "w") as f:
+            for c in cases:
+                f.write(_json.dumps(c) + "\n")
+        trace = _os.path.join(wd, "trace.ndjson")
+        summ = C.run_harness(binary, "attesttool", cp, trace, _os.path.join(wd, "s.json"), tier, extra=["-arg", tool])
+        vr = smallfam.validate("AttestTool_Trace", "TSpec", trace, "", wd)
+        out = dict(states=r.distinct, cases=len(cases), runs=summ["runs"], counts=summ["counts"], conforms=bool(vr.ok))
+        if vr.ok:
+            C.log("[%s] AttestTool (tools/attest around the same client calls): %d states, %d command lines on the real binary, all conform" % (prop, r.distinct, len(cases)))
+        elif vr.postcondition_false:
+            idx = smallfam.unconsumed_index(vr)
+            evs, j, k = smallfam.call_block(trace, idx)
+            out["first_divergence"] = evs
+            C.log("NOTE [%s] model drift (not a property verdict): AttestTool diverges from tools/attest at %s" % (prop, _json.dumps(evs)[:400]))
+        else:
+            raise C.Infra("trace validation failed: " + vr.out[-600:])
+        return out
+    except Exception as e:  # noqa: BLE001 -- a side part: never the verdict, never the exit status
+        C.log("NOTE [%s] AttestTool part not completed (not a property verdict): %s" % (prop, str(e)[:400]))
+        return dict(conforms=None, not_completed=str(e)[:400])
+
+
 def _c15(prop, tier):
     code, _, _ = smallfam.run(prop, tier, mc_module="GuestClient_MC", mc_cfg=C15_CFG, driver="client", trace_module="GuestClient_Trace",
                               key_fn=_key_generic,
@@ -34,7 +75,8 @@ def _c15(prop, tier):
                               case_fn=lambda cases, t: sorted(cases, key=lambda c: c.get("prior") != "good"),
                               required_actions=("Start", "SendReport", "SendQuote", "ReturnData", "ReturnErr", "AskSupported", "ProviderQuote", "Fallback"),
                               assumptions=["the scripted client.Device / client.QuoteProvider stand for the kernel device and configfs-tsm",
-                                           "ioctl numbers are re-derived from the Linux _IOWR definition", "inotify reports the fall-back's open of the configured device path"])
+                                           "ioctl numbers are re-derived from the Linux _IOWR definition", "inotify reports the fall-back's open of the configured device path"],
+                              extra_cov=lambda summ: {"guest_tool_specification_AttestTool": _attest_note(prop, tier)})
     return code
 
 
